@@ -130,7 +130,7 @@ pub struct Sc {
 
 pub fn runs_for(_prop: &str, tier: Tier) -> u64 {
     match tier {
-        Tier::Quick => 24576,
+        Tier::Quick => 65536,
         Tier::Thorough => 393216,
     }
 }
